@@ -3,6 +3,7 @@
 from __future__ import annotations
 
 import asyncio
+import errno
 import os
 from functools import partial
 from pathlib import Path
@@ -18,6 +19,9 @@ from liquid.loader import TemplateSource
 if TYPE_CHECKING:
     from liquid import Environment
     from liquid import RenderContext
+
+
+_BAD_NAME_ERRNOS = frozenset((errno.ENAMETOOLONG, errno.EINVAL))
 
 
 class FileSystemLoader(BaseLoader):
@@ -79,9 +83,14 @@ class FileSystemLoader(BaseLoader):
             try:
                 if not source_path.exists() or not source_path.is_file():
                     continue
-            except OSError:
-                # The OS rejected the path. The name is too long, for example.
-                continue
+            except OSError as err:
+                # The OS rejected the name itself, it is too long for example, so
+                # there is no such template. Any other error (too many open files,
+                # an I/O error, ...) says nothing about the template and must not
+                # be reported, or cached by a choice loader, as "not found".
+                if err.errno in _BAD_NAME_ERRNOS:
+                    continue
+                raise
 
             if self.reject_symlinks:
                 try:
